@@ -30,6 +30,11 @@ def plan(tier, seed):
     for sch in (["CJJ14.PiBas"] if tier == "quick" else ["CJJ14.PiBas", "CJJ14.PiPack", "CT14.Pi"]):
         specs.append({"name": f"sorted-big-{gen.SHORT[sch]}", "scheme": sch, "part": "big", "index": 0, "of": 1,
                       "budget_s": 200 if tier == "quick" else 900})
+    # labels so short (3 bytes) that random filler labels of one level coincide: whatever the scheme does about the
+    # coincidence, the stored label order stays ascending
+    for sch in ("CT14.Pi", "ANSS16.Scheme3"):
+        specs.append({"name": f"sorted-short-labels-{gen.SHORT[sch]}", "scheme": sch, "part": "short-labels", "index": 0,
+                      "of": 1, "budget_s": 200, "rounds": 2 if tier == "quick" else 12})
     return specs
 
 
@@ -399,6 +404,44 @@ def run_shard(spec, acc, ctx):
             acc.add("distinct", sse.case_fp(scheme, "big", db))
         acc.count("cases")
         acc.count("big_table_cases")
+        return
+    if spec["part"] == "short-labels":
+        short = gen.SHORT[scheme]
+        for rnd in range(spec["rounds"]):
+            if ctx.out_of_time():
+                break
+            cfg = gen.default_config(scheme)
+            cfg["param_l"] = 3
+            if scheme == "ANSS16.Scheme3":
+                cfg["param_l_prime"] = 3
+            db, info = gen.db_from_lens(rng, scheme, cfg, [256] * 32 if rnd % 2 == 0 else [1] * 4096 + [4096], "profile")
+            acc.count("cases")
+            acc.count("short_label_cases")
+            try:
+                sch = sse.loader(scheme).SSEScheme(cfg)
+                key = sch.KeyGen()
+                raws = [sch.EDBSetup(key, copy.deepcopy(db)).serialize(),
+                        sch.EDBSetup(key, dict(reversed(list(db.items())))).serialize()]
+            except Exception as e:
+                acc.count("setup_failed")
+                acc.note(f"{short}: short-label setup failed {exc_site(e)}")
+                continue
+            ok = True
+            for raw in raws:
+                body = pickle.loads(raw[raw.find(b"\x80"):])
+                for path, keys in tables_of(body):
+                    acc.count("tables_checked")
+                    acc.count("tables_checked." + short)
+                    if keys != sorted(keys):
+                        acc.violation(f"{short}:table-not-sorted", f"{scheme} with 3-byte labels and {info['N']} postings: "
+                                      f"keys of {path} ({len(keys)} entries) are not in ascending order in the "
+                                      f"serialized index", {"scheme": scheme, "cfg": cfg, "lens": info["lens"]})
+                        ok = False
+                        break
+                if not ok:
+                    break
+            if ok:
+                acc.add("distinct", fp("short-labels", scheme, rnd))
         return
     if spec["part"] == "sorted":
         first = True
